@@ -101,8 +101,10 @@ def classify_fold(req, impl_line, model_line):
     if fold == "panic" and rt.startswith("ok "):
         problems.append("fold-panics-eval-ok")
     # optimizer on vs off: compared when eval_constant decides the expression (fold != none) or no
-    # typed NULL stays symbolic in it; rewrite rules over a symbolic NULL operand (mul-zero,
-    # sub-cancel, eq-eq, ...) are C01's subject, only the explicit witness below is replayed here
+    # typed NULL stays symbolic in it.  Rewrite rules over a symbolic NULL operand are C01's
+    # subject (the NULL-unsound ones were removed from /repo in 9930474; others remain, e.g.
+    # `x * -1 => -x` meets the missing SMALLINT arm of `neg`); the former mul-zero witness is
+    # still replayed as a regression input.
     symbolic_null = fold == "none" and " null)" in req and not req.startswith("(f (* i32:0 (cast INT null))")
     if so != "-" and not symbolic_null and not (so == sn or (not so.startswith("ok") and not sn.startswith("ok"))):
         problems.append("optimizer-on!=off")
